@@ -16,6 +16,13 @@
              "close"     route without retry, upstream closes the connection (local 502)
              "aterm"     upstream holds the request; a filter's handler calls TerminateStream meanwhile
              "lterm"     upstream answers 200; TerminateStream is called after the request has ended
+             "atermA"    guided schedule: the upstream's answer is held at the gate us.recv.guard (before the proxy's
+                         response CAS) while TerminateStream is called: the termination wins, the answer is dropped
+             "atermB"    guided schedule: the upstream's answer has won the CAS and the woken worker is held at the gate
+                         ds.woken while TerminateStream is called: it must be refused, the client gets the 200
+             "atermC"    guided schedule: the upstream is silent, the global timeout (150 ms) fires and its callback is
+                         held right after it won the response CAS (gate ds.gtimer.cas) while TerminateStream is called:
+                         it must be refused, the client gets the single timeout reply (504)
    verdicts of a receive filter (chosen by TLC per invocation = the verdict script of the filter):
              c continue | s stop | t termination | hs hijack+stop | hc hijack+continue | d direct response+stop |
              ts TerminateStream then stop | ac TerminateStream from another goroutine, then continue |
@@ -67,7 +74,7 @@ DirectCode(i) == 440 + i
 TermCode(i)   == 570 + i
 ATermCode(i)  == 580 + i
 AsyncCode     == 598
-ResetCode     == 502
+ResetCode(e)  == IF e = "atermC" THEN 504 ELSE 502
 
 RecvVerdicts(k) == {"c", "s", "t", "hs", "hc", "d", "ts", "ac"} \cup (IF k = "R" THEN {"rm"} ELSE {}) \cup (IF k = "H" THEN {"rc"} ELSE {})
 SendVerdicts    == {"c", "s", "t"}
@@ -87,7 +94,7 @@ Settle(ch, p, c) == IF p = "F" THEN [ph |-> "F", cur |-> 1]
                     ELSE Settle(ch, Succ(p), 1)
 
 Init == /\ chain \in Chains /\ env \in Envs /\ real = [slot |-> 0, code |-> 0]
-        /\ env = "aterm" => \E i \in DOMAIN chain : chain[i] \in RecvKinds
+        /\ env \in {"aterm", "atermA", "atermB", "atermC"} => \E i \in DOMAIN chain : chain[i] \in RecvKinds
         /\ LET s == Settle(chain, "B", 1) IN ph = s.ph /\ cur = s.cur
         /\ scur = 1 /\ again = "none" /\ direct = 0 /\ pend = [code |-> 0, local |-> FALSE] /\ hostChosen = FALSE
         /\ log = <<>> /\ pass = 1 /\ marks = {} /\ fwd = 0 /\ replies = 0 /\ reply = 0 /\ reentries = 0 /\ alt = FALSE
@@ -172,12 +179,12 @@ Forward == CanForward /\ DoForward
 Response(pd) == LET nx == EnterSend(pd, again, cur, hostChosen) IN
                 /\ ph' = nx.ph /\ cur' = nx.cur /\ again' = nx.again /\ pass' = nx.np /\ pend' = pd /\ marks' = {} /\ scur' = 1
                 /\ UNCHANGED <<chain, env, real, direct, hostChosen, log, fwd, replies, reply, reentries, alt, denied, answer, term, resumeAt, bad>>
-CanUpResp  == ph = "W" /\ env \in {"ok", "retry503", "lterm"}
+CanUpResp  == ph = "W" /\ env \in {"ok", "retry503", "lterm", "atermB"}
 UpResp     == CanUpResp /\ Response([code |-> UpCode(env, fwd), local |-> FALSE])
-CanUpReset == ph = "W" /\ env = "close"
-UpReset    == CanUpReset /\ Response([code |-> ResetCode, local |-> TRUE])
+CanUpReset == ph = "W" /\ env \in {"close", "atermC"}
+UpReset    == CanUpReset /\ Response([code |-> ResetCode(env), local |-> TRUE])
 HasRecv    == \E i \in DOMAIN chain : chain[i] \in RecvKinds
-CanATerm   == ph = "W" /\ env = "aterm" /\ HasRecv
+CanATerm   == ph = "W" /\ env \in {"aterm", "atermA"} /\ HasRecv
 ATerm      == CanATerm /\ Response([code |-> AsyncCode, local |-> TRUE])
 
 CanCallSend(i, v) == ph = "S" /\ i = NextIn(chain, "S", scur) /\ i # 0 /\ v \in SendVerdicts
